@@ -9,6 +9,10 @@ import (
 	"go.etcd.io/raft/v3/tracker"
 )
 
+// healActionCap bounds the work of one heal phase (typical phases need a few
+// thousand actions).
+const healActionCap = 250000
+
 // HealResult summarises the heal phase.
 type HealResult struct {
 	Converged   bool
@@ -43,6 +47,7 @@ func RunHeal(c *Cluster, seed uint64) *HealResult {
 	for _, id := range c.ids {
 		c.Do(Action{K: ASnapFault, N: id, I: 0})
 	}
+	startActions := c.stats.Actions
 	probesLeft := 3
 	probeTags := []int{}
 	convergedOnce := false
@@ -88,6 +93,12 @@ func RunHeal(c *Cluster, seed uint64) *HealResult {
 		limit := res.Budget
 		if convergedOnce {
 			limit = res.Budget + 20*2*maxET
+		}
+		// The heal phase is also bounded in work: a group that keeps exchanging
+		// messages without settling has not converged either.
+		if c.stats.Actions-startActions > healActionCap {
+			why = firstNonEmpty(why, "probe proposals not applied everywhere") + fmt.Sprintf(" (heal phase action cap %d exhausted in round %d)", healActionCap, round)
+			round = limit
 		}
 		if round >= limit {
 			if res.Exempt == "" {
